@@ -225,6 +225,9 @@ pub struct E2eCase {
     /// how the host answers relayed requests: 0 plainly; 1 chunked with a trailer section; 2 chunked, several trailer fields, 1-byte chunks
     #[serde(default)]
     pub host_reply: u8,
+    /// policy 6: this generated rule document (dangling and duplicate names, any mode) is installed for IMDS
+    #[serde(default)]
+    pub gen_doc: Option<GDoc>,
 }
 
 fn tchar_method() -> impl Strategy<Value = String> {
@@ -268,14 +271,14 @@ pub fn e2e_strategy() -> impl Strategy<Value = E2eCase> {
         0usize..8,
         prop::sample::select(vec![0u64, 1001, 1004, 1005, 1006]),
         any::<bool>(),
-        0u8..4,
+        prop_oneof![4 => 0u8..4, 3 => 4u8..7],
         any::<bool>(),
-        (prop::collection::vec(hostile_req(), 1..4), prop_oneof![6 => Just(0u8), 2 => Just(1u8), 1 => Just(2u8)], prop_oneof![27 => Just(0u16), 1 => Just(40u16), 1 => Just(160u16), 1 => Just(400u16)], prop_oneof![6 => Just(0u8), 1 => Just(1u8), 1 => Just(2u8)]),
+        (prop::collection::vec(hostile_req(), 1..4), prop_oneof![6 => Just(0u8), 2 => Just(1u8), 1 => Just(2u8)], prop_oneof![27 => Just(0u16), 1 => Just(40u16), 1 => Just(160u16), 1 => Just(400u16)], prop_oneof![6 => Just(0u8), 1 => Just(1u8), 1 => Just(2u8)], crate::gen::gdoc()),
     )
-        .prop_map(|(exe_name, wide, wide_count, shift, uid, is_root, policy, key, (requests, caller_state, hangups, host_reply))| E2eCase { exe_name, wide, wide_count, shift, uid, is_root, policy, key, requests, caller_state, hangups, host_reply })
+        .prop_map(|(exe_name, wide, wide_count, shift, uid, is_root, policy, key, (requests, caller_state, hangups, host_reply, doc))| E2eCase { exe_name, wide, wide_count, shift, uid, is_root, policy, key, requests, caller_state, hangups, host_reply, gen_doc: if policy == 6 { Some(doc) } else { None } })
 }
 
-pub const RULE_E2E: &str = "part B: through the real listener with a key latched in half of the cases: (i) requests that are syntactically valid by RFC 9112 - extension methods, origin/absolute/asterisk targets, paths ending in arbitrary %XX escapes (any byte value, e.g. %FF, %80, a lone %C3, %00), targets of 1-120 KB, HTTP/1.0, header values with obs-text bytes 0x80-0xFF and tabs, values of 1-9 KB, one header repeated 2-150 times (around hyper's 100-header limit), bodies as Content-Length / chunked / chunked with extensions and a trailer / Expect: 100-continue; (ii) callers = freshly exec'ed helper processes whose executable name and argv contain long runs of 2/3/4-byte characters (300-6000 of them, shifted by 0-7 ASCII bytes) so that the connection-summary JSON and the 'Block unauthorized request' text cross bytes 4096 inside a character, users with multi-byte names from the generated passwd; in a third of the cases the caller has exited by the time its connection is accepted (not yet reaped: no exe link and an empty command line; or its pid is gone); IMDS under allow / enforce-deny / audit-deny rule sets and WireServer; in a quarter of the cases the host answers relayed requests chunked with a trailer section; in a tenth of the cases 40-400 further keep-alive connections complete one exchange, send a second complete request and are reset 0-600 microseconds later, before its response. oracle: the process-wide panic hook stays empty; every request receives a status line; after each case a canary request on a fresh attributed connection is relayed (200) and, every 25th case, status.json written by the real status task has advanced. non-trivial: a caller with >= 300 wide characters, or a header value with an obs-text byte, or a repeated header >= 99 times, or a target >= 60 KB; distinct by hash of the case.";
+pub const RULE_E2E: &str = "part B: through the real listener with a key latched in half of the cases: (i) requests that are syntactically valid by RFC 9112 - extension methods, origin/absolute/asterisk targets, paths ending in arbitrary %XX escapes (any byte value, e.g. %FF, %80, a lone %C3, %00), targets of 1-120 KB, HTTP/1.0, header values with obs-text bytes 0x80-0xFF and tabs, values of 1-9 KB, one header repeated 2-150 times (around hyper's 100-header limit), bodies as Content-Length / chunked / chunked with extensions and a trailer / Expect: 100-continue; (ii) callers = freshly exec'ed helper processes whose executable name and argv contain long runs of 2/3/4-byte characters (300-6000 of them, shifted by 0-7 ASCII bytes) so that the connection-summary JSON and the 'Block unauthorized request' text cross bytes 4096 inside a character, users with multi-byte names from the generated passwd; in a third of the cases the caller has exited by the time its connection is accepted (not yet reaped: no exe link and an empty command line; or its pid is gone); IMDS under allow / enforce-deny / audit-deny rule sets, under rule documents whose role, privilege and identity references do not all resolve, under generated rule documents, and WireServer; in a quarter of the cases the host answers relayed requests chunked with a trailer section; in a tenth of the cases 40-400 further keep-alive connections complete one exchange, send a second complete request and are reset 0-600 microseconds later, before its response. oracle: the process-wide panic hook stays empty; every request receives a status line; after each case a canary request on a fresh attributed connection is relayed (200) and, every 25th case, status.json written by the real status task has advanced. non-trivial: a caller with >= 300 wide characters, or a header value with an obs-text byte, or a repeated header >= 99 times, or a target >= 60 KB; distinct by hash of the case.";
 
 fn deny_all(mode: &str) -> GDoc {
     GDoc {
@@ -287,6 +290,21 @@ fn deny_all(mode: &str) -> GDoc {
         roles: Some(vec![GRole { name: "r".into(), privileges: vec!["p".into()] }]),
         identities: Some(vec![GIdent { name: "i".into(), user: Some("nobody-at-all".into()), group: None, exe: None, proc_name: None }]),
         assignments: Some(vec![GAssign { role: "r".into(), identities: vec!["i".into()] }]),
+    }
+}
+
+/// a rule document whose references do not all resolve: a role that lists an undefined privilege, an assignment that lists an
+/// undefined identity before a defined one, an assignment of an undefined role (the host publishes it; the agent lives with it)
+fn dangling_doc(mode: &str) -> GDoc {
+    GDoc {
+        mode: mode.into(),
+        default_access: "deny".into(),
+        id: format!("c13-dangling-{}", mode),
+        rules_present: true,
+        privileges: Some(vec![GPriv { name: "p".into(), path: "/".into(), query: None }]),
+        roles: Some(vec![GRole { name: "r".into(), privileges: vec!["p-undefined".into(), "p".into()] }]),
+        identities: Some(vec![GIdent { name: "i".into(), user: Some("nobody-at-all".into()), group: None, exe: None, proc_name: None }]),
+        assignments: Some(vec![GAssign { role: "r".into(), identities: vec!["i-undefined".into(), "i".into()] }, GAssign { role: "r-undefined".into(), identities: vec!["i".into()] }]),
     }
 }
 
@@ -392,18 +410,24 @@ pub fn eval_e2e(rig: &Rig, st: &mut E2eState, case: &E2eCase, stats: &mut Stats)
         }
         _ => {}
     }
-    let (imds, ws): (Option<GDoc>, Option<GDoc>) = match case.policy % 4 {
+    let (imds, ws): (Option<GDoc>, Option<GDoc>) = match case.policy % 8 {
         1 => (Some(deny_all("enforce")), None),
         2 => (Some(deny_all("audit")), None),
+        4 => (Some(dangling_doc("enforce")), None),
+        5 => (Some(dangling_doc("audit")), None),
+        6 => (case.gen_doc.clone(), None),
         _ => (None, None),
     };
+    if case.policy % 8 >= 4 {
+        stats.class("rules:references-that-do-not-resolve-or-generated-document");
+    }
     rig.set_rules(ws.as_ref(), imds.as_ref(), None);
     if case.key {
         rig.set_key(Some(("11111111-2222-3333-4444-555555555555", "4a404e635266556a586e3272357538782f413f4428472b4b6250645367566b59")));
     } else {
         rig.set_key(None);
     }
-    let (ip, port): ([u8; 4], u16) = if case.policy % 4 == 3 { ([168, 63, 129, 16], 80) } else { ([169, 254, 169, 254], 80) };
+    let (ip, port): ([u8; 4], u16) = if case.policy % 8 == 3 { ([168, 63, 129, 16], 80) } else { ([169, 254, 169, 254], 80) };
     let entry = verif_hooks::Entry { logon_id: case.uid, process_id: helper.pid(0), is_admin: if case.is_root { 1 } else { 0 }, destination_ipv4: u32::from_ne_bytes(ip), destination_port: port.to_be() };
 
     let wide_caller = case.wide_count >= 300;
@@ -566,7 +590,7 @@ pub fn eval_e2e(rig: &Rig, st: &mut E2eState, case: &E2eCase, stats: &mut Stats)
     if interesting {
         stats.nontrivial_hash(h64(case));
     }
-    stats.sample(|| serde_json::json!({"caller": {"exe": case.exe_name, "uid": case.uid, "wide_char_bytes": case.wide, "wide_chars": case.wide_count, "shift": case.shift}, "policy": case.policy % 4, "key": case.key,
+    stats.sample(|| serde_json::json!({"caller": {"exe": case.exe_name, "uid": case.uid, "wide_char_bytes": case.wide, "wide_chars": case.wide_count, "shift": case.shift}, "policy": case.policy % 8, "key": case.key,
         "requests": case.requests.iter().map(|r| serde_json::json!({"method": r.method, "target_kind": r.target_kind, "long_len": r.long_len, "headers": r.headers.iter().map(|(n, v)| format!("{}: {:?}", n, String::from_utf8_lossy(&v[..v.len().min(40)]))).collect::<Vec<_>>(), "repeat": r.repeat_header, "framing": r.framing, "body_len": r.body.len()})).collect::<Vec<_>>()}));
     Outcome::Pass
 }
